@@ -191,7 +191,7 @@ func genC12Case(t *rapid.T) C12Case {
 			}
 		}
 	}
-	c.SignMode = rapid.SampledFrom([]string{"none", "none", "none", "none", "none", "none", "none", "valid", "rogue", "rogue-registered-cert", "edited", "empty-value", "rogue-no-keyinfo", "edited-no-keyinfo", "wrapped-header", "wrapped-header-nokeyinfo"}).Draw(t, "signmode")
+	c.SignMode = rapid.SampledFrom([]string{"none", "none", "none", "none", "none", "none", "none", "valid", "rogue", "rogue-registered-cert", "edited", "empty-value", "rogue-no-keyinfo", "edited-no-keyinfo", "two-queries-genuine-first", "two-queries-genuine-last", "two-bodies-genuine-first", "two-bodies-genuine-last", "wrapped-header", "wrapped-header-nokeyinfo"}).Draw(t, "signmode")
 	return c
 }
 
@@ -266,6 +266,31 @@ func c12Render(c C12Case, now time.Time) obs.HTTPReq {
 		hdr.Add(genuine)
 		env.InsertAt(0, hdr)
 	}
+	if strings.HasPrefix(c.SignMode, "two-") {
+		// the genuine signed query and, next to it, a forged one (other subject) carrying the copied signature: as a second
+		// element of the same body, or in a second body - before or after the genuine one
+		forged := c.Query.Rendered(now).QueryTree(c.Style)
+		if forged.AttrV("ID") == "" {
+			forged.SetAttr("ID", "_q")
+		}
+		if sn := forged.Path("Subject", "NameID"); sn != nil {
+			sn.Children = nil
+			sn.AddText(c.Spec.Users[1].LoginName)
+		}
+		if gs := tree.Child(world.NSDS, "Signature"); gs != nil {
+			forged.InsertAt(1, gs.Clone())
+		}
+		first, second := tree, forged
+		if strings.HasSuffix(c.SignMode, "genuine-last") {
+			first, second = forged, tree
+		}
+		env = spsim.Envelope(first, c.Soap)
+		if strings.HasPrefix(c.SignMode, "two-queries") {
+			env.Child(world.NSSOAP, "Body").Add(second)
+		} else {
+			env.Add(spsim.Envelope(second, c.Soap).Child(world.NSSOAP, "Body"))
+		}
+	}
 	hr, _, _ := spsim.Encode(c.Spec.IdP.Route("attribute"), xt.Write(env, c.Style.W), spsim.Transport{Binding: "soap"}, nil)
 	hr.Host = c.Host
 	return hr
@@ -337,19 +362,33 @@ func c12Run(c C12Case) c12Outcome {
 	if spIdx < 0 {
 		out.guards = append(out.guards, "issuer-not-registered")
 	}
-	// signature values carried
-	for _, s := range qn.ChildrenNamed(world.NSDS, "Signature") {
-		sv := s.Child(world.NSDS, "SignatureValue")
-		if sv == nil || strings.TrimSpace(sv.Text()) == "" {
-			continue
+	// signature values carried: by the query, and by every other query element the message holds (a second element in the
+	// body, a second body)
+	var queries []*xt.Node
+	for _, b := range doc.Root.ChildrenNamed(world.NSSOAP, "Body") {
+		queries = append(queries, b.ChildrenNamed(world.NSSAMLP, "AttributeQuery")...)
+	}
+	if len(queries) == 0 {
+		queries = []*xt.Node{qn}
+	}
+	sigInvalid := false
+	for _, q := range queries {
+		for _, s := range q.ChildrenNamed(world.NSDS, "Signature") {
+			sv := s.Child(world.NSDS, "SignatureValue")
+			if sv == nil || strings.TrimSpace(sv.Text()) == "" {
+				continue
+			}
+			ok := false
+			if spIdx >= 0 && len(c.Spec.SPs[spIdx].KeyNames) > 0 {
+				ok = dsigref.VerifyEnveloped(q, s, &world.Key(c.Spec.SPs[spIdx].KeyNames[0]).RSA.PublicKey).OK
+			}
+			if !ok {
+				sigInvalid = true
+			}
 		}
-		ok := false
-		if spIdx >= 0 && len(c.Spec.SPs[spIdx].KeyNames) > 0 {
-			ok = dsigref.VerifyEnveloped(qn, s, &world.Key(c.Spec.SPs[spIdx].KeyNames[0]).RSA.PublicKey).OK
-		}
-		if !ok {
-			out.guards = append(out.guards, "signature-invalid")
-		}
+	}
+	if sigInvalid {
+		out.guards = append(out.guards, "signature-invalid")
 	}
 	// Destination: the unqualified attribute is the protocol's; a namespace-qualified twin is not asserted on
 	advertised := c.Spec.IdP.Advertised("attribute", c.Host)
